@@ -7,7 +7,8 @@
    leave their inputs alone and that pydicom writes/reads the result are
    runtime checks in harness/c20.py. *)
 From Coq Require Import String ZArith List Bool.
-From HD Require Import Base.Val C20_Model C20_Proofs C20_Proofs_Str C20_Proofs_Obj.
+From Coq Require Import Permutation.
+From HD Require Import Base.Val C20_Model C20_Proofs C20_Proofs_Str C20_Proofs_Obj C20_Proofs_Ext.
 Import ListNotations.
 
 (* ------------------------------------------------------------------ *)
@@ -471,3 +472,120 @@ Example C20_ex_ctor_body :
 Proof. vm_compute. repeat split. Qed.
 Print Assumptions C20_ex_ctor_body.
 
+
+(* ------------------------------------------------------------------ *)
+(* 11. segmented palette colour tables (SegmentedPaletteColorLUT.__init__):
+       'every object the library constructs can be written' for the descriptor,
+       whose VR US cannot hold 2^16                                       *)
+
+(* what an accepted call stores: descriptor from the EXPANDED length, the
+   segmented data little endian and padded to even length; refusal iff a guard
+   fails or the segments are malformed; every value of the descriptor fits VR
+   US and number_of_entries gives the expanded length back EXACTLY for tables
+   of 1 .. 2^16 entries (a table that expands to nothing or to more than 2^16
+   entries is accepted by the code but is no valid argument: see
+   C20_segmented_oversize_not_writable) *)
+Theorem C20_segmented_lut_spec : forall bits first data,
+  (forall d s n, segmented_lut bits first data = Ok (d, s, n) ->
+     (segmented_ok bits first data = true /\ seg_count data 0 = Ok n /\
+      d = [entries_field n; first; bits]%Z /\ s = palette_store bits data /\ Z.even (zlen s) = true) /\
+     ((forallb fits_us d = true /\ entries_read (hd 0%Z d) = n) <-> (1 <= n <= 65536)%Z)) /\
+  ((exists k, segmented_lut bits first data = Err k) <->
+   segmented_ok bits first data = false \/ exists k, seg_count data 0 = Err k).
+Proof.
+  intros bits first data. split; [|exact (segmented_lut_refused_iff bits first data)].
+  intros d s n H. split; [exact (segmented_lut_gen_ok _ _ _ _ _ _ _ H) | exact (segmented_descriptor_iff _ _ _ _ _ _ H)].
+Qed.
+Print Assumptions C20_segmented_lut_spec.
+
+(* applying the 2^16 rule to the length of the segmented data (seed C20-m9)
+   changes the result exactly for tables that expand to 2^16 entries, and then
+   the descriptor is no US value *)
+Theorem C20_segmented_stale_length_refuted :
+  (forall bits first data,
+     segmented_lut_stale bits first data <> segmented_lut bits first data <->
+     segmented_ok bits first data = true /\ seg_count data 0 = Ok 65536%Z) /\
+  (exists bits first data d s n,
+     segmented_lut_stale bits first data = Ok (d, s, n) /\ n = 65536%Z /\ forallb fits_us d = false /\
+     (exists d', segmented_lut bits first data = Ok (d', s, n) /\ forallb fits_us d' = true)).
+Proof. exact (conj segmented_stale_differs_iff segmented_stale_refuted). Qed.
+Print Assumptions C20_segmented_stale_length_refuted.
+
+(* residue of the CURRENT code: segments that expand to more than 2^16 entries
+   are accepted and give a descriptor that cannot be written *)
+Theorem C20_segmented_oversize_not_writable :
+  exists d s n, segmented_lut 16 0 [0; 65535; 5; 0; 65535; 5]%Z = Ok (d, s, n) /\ n = 131070%Z /\
+                forallb fits_us d = false.
+Proof. exact segmented_oversize. Qed.
+Print Assumptions C20_segmented_oversize_not_writable.
+
+(* ------------------------------------------------------------------ *)
+(* 12. the pixel measures a Segmentation records (seg/sop.py __init__)  *)
+
+(* whatever the origin of the measures (caller's argument, the multi-frame
+   source's own sequence, freshly built) and whether or not a slice spacing is
+   derived: no object of the caller is written to; a spacing is recorded iff
+   one was there or one is derived *)
+Theorem C20_seg_measures_never_write : forall c,
+  fst (seg_measures c) = false /\
+  (snd (seg_measures c) = true <-> m_has_spacing c = true \/ (m_patient c = true /\ m_regular c = true)).
+Proof. intros c. exact (conj (seg_measures_never_writes c) (seg_measures_spacing c)). Qed.
+Print Assumptions C20_seg_measures_never_write.
+
+(* exact write criterion for ANY policy of when to copy before recording;
+   copying only measures passed by the caller (seed C20-m7) writes into the
+   source image exactly for a multi-frame source in the patient coordinate
+   system without SpacingBetweenSlices and regularly spaced frames *)
+Theorem C20_measures_write_criterion : forall c,
+  (forall cw, snd (run_ops (measures_origin c) (measures_ops_gen cw c)) =
+              measures_derive c && negb (cw c) && (m_user c || m_multiframe c)) /\
+  (snd (run_ops (measures_origin c) (measures_ops_user_only c)) = true <->
+   m_user c = false /\ m_multiframe c = true /\ m_patient c = true /\ m_has_spacing c = false /\ m_regular c = true).
+Proof. intros c. exact (conj (fun cw => measures_write_criterion cw c) (measures_user_only_writes_iff c)). Qed.
+Print Assumptions C20_measures_write_criterion.
+
+(* ------------------------------------------------------------------ *)
+(* 13. displayed area of a presentation state (pr/content.py)           *)
+
+(* the caller's list of referenced images keeps its order; for tiled images
+   the FIRST image of minimal total pixel matrix size is displayed (stable
+   sort of a copy), otherwise the first image; refusal iff the list is empty *)
+Theorem C20_displayed_area_spec : forall tiled refs,
+  (forall low after, displayed_area tiled refs = Ok (low, after) ->
+     after = refs /\
+     (tiled = false -> hd_error refs = Some low) /\
+     (tiled = true -> exists pre post, refs = (pre ++ low :: post)%list /\
+        (forall x, In x pre -> (img_key low < img_key x)%Z) /\ (forall x, In x post -> (img_key low <= img_key x)%Z))) /\
+  ((exists k, displayed_area tiled refs = Err k) <-> refs = []).
+Proof.
+  intros tiled refs. split; [intros low after; exact (displayed_area_spec tiled refs low after)|].
+  exact (displayed_area_refused_iff false tiled refs).
+Qed.
+Print Assumptions C20_displayed_area_spec.
+
+(* sorting the caller's list in place (seed C20-m8) builds the same object
+   and permutes the caller's list; it keeps its order exactly when the images
+   are not tiled or were passed in ascending order of size *)
+Theorem C20_displayed_area_inplace_sort_refuted : forall tiled refs low after,
+  displayed_area_gen true tiled refs = Ok (low, after) ->
+  displayed_area tiled refs = Ok (low, refs) /\ Permutation after refs /\
+  (after = refs <-> tiled = false \/ ascending (keys refs) = true).
+Proof. exact displayed_area_inplace_iff. Qed.
+Print Assumptions C20_displayed_area_inplace_sort_refuted.
+
+Example C20_ex_segmented_measures_area :
+  run_segmented_lut 16 0 [0; 1; 0; 1; 65535; 65535]%Z =
+    VL [vz_list [0; 0; 16]%Z; vz_list [0; 0; 1; 0; 0; 0; 1; 0; 255; 255; 255; 255]%Z; VZ 65536] /\
+  run_segmented_lut 8 0 [0; 3; 5]%Z = VL [vz_list [3; 0; 8]%Z; vz_list [0; 3; 5; 0]%Z; VZ 3] /\
+  run_segmented_lut 16 0 [1; 5; 100]%Z = VErr "IndexError" /\
+  run_segmented_lut 16 0 [0; 1; 7; 1; 1; 100]%Z = VErr "ValueError" /\
+  run_segmented_lut 16 0 [0; 1; 5; 2; 3; 4]%Z = VErr "ValueError" /\
+  run_segmented_lut 16 0 [0; 1]%Z = VErr "IndexError" /\
+  run_seg_measures false true true false true = VL [VB false; VB true] /\
+  run_seg_measures false true false false true = VL [VB false; VB false] /\
+  run_displayed_area true [(32, 32); (8, 8); (16, 16); (8, 8)]%Z =
+    VL [vz_list [8; 8]%Z; VZ 1; vz_list [0; 1; 2; 3]%Z] /\
+  run_displayed_area false [(32, 16); (8, 8)]%Z = VL [vz_list [16; 32]%Z; VZ 0; vz_list [0; 1]%Z] /\
+  run_displayed_area true [] = VErr "IndexError".
+Proof. exact ex_segmented_measures_area. Qed.
+Print Assumptions C20_ex_segmented_measures_area.
